@@ -497,6 +497,7 @@ class FiltersSet:
                 node,
                 (
                     commands.HeaderCommand,
+                    commands.AddressCommand,
                     commands.SizeCommand,
                     commands.ExistsCommand,
                     commands.BodyCommand,
@@ -506,7 +507,7 @@ class FiltersSet:
             ):
                 args = node.args_as_tuple()
                 if negate:
-                    if node.name in ["header", "envelope"]:
+                    if node.name in ["header", "envelope", "address"]:
                         nargs = (args[0], ":not{}".format(args[1][1:]))
                         if len(args) > 3:
                             nargs += args[2:]
